@@ -168,7 +168,8 @@ theorem enum_item_compiled (nm : Naming) (flat : Name) (e : EnumP) :
 /-- every class of `lib/std/google/protobuf`, `lib/std/google/protobuf/compiler` and their
     pydantic twins agrees with google.protobuf's own DESCRIPTORs (descriptor.proto, plugin.proto
     and the well-known-type files) on every field number they share: same field name, same
-    proto type, same repeated-ness.  `Gen/Descriptors.lean` is regenerated on every run. -/
+    proto type, same repeated-ness — and a field name they share has the same number.
+    `Gen/Descriptors.lean` is regenerated on every run. -/
 theorem bundled_descriptors_agree :
     libAgrees bundledStd = true ∧ libAgrees bundledStdCompiler = true
     ∧ libAgrees bundledPydantic = true ∧ libAgrees bundledPydanticCompiler = true := by
